@@ -135,6 +135,9 @@ def ClientTlsConfig.intoTlsConnector (sys : Sys Root) (cfg : ClientTlsConfig Roo
 structure Endpoint (Root Chain : Type) where
   uri : Uri
   tls : Option (TlsConnector Root Chain)
+  /-- `Endpoint::origin(..)`: the URI `AddOrigin` writes into requests (`:scheme`, `:authority`).  It is read by
+  `Connection::new` only; `tls_config`, `Endpoint::new` and the connector never look at it. -/
+  origin : Option Uri := none
 
 /-- `Endpoint::from_shared` / `from_static`: no TLS until `tls_config` is called. -/
 def Endpoint.fromShared (uri : Uri) : Endpoint Root Chain := { uri := uri, tls := none }
@@ -143,6 +146,21 @@ def Endpoint.fromShared (uri : Uri) : Endpoint Root Chain := { uri := uri, tls :
 def Endpoint.tlsConfig (sys : Sys Root) (ep : Endpoint Root Chain) (cfg : ClientTlsConfig Root Chain) :
     Except CfgErr (Endpoint Root Chain) :=
   match cfg.intoTlsConnector sys ep.uri with
+  | .ok t => .ok { ep with tls := some t }
+  | .error e => .error e
+
+/-- `Endpoint::origin` -/
+def Endpoint.setOrigin (ep : Endpoint Root Chain) (o : Uri) : Endpoint Root Chain := { ep with origin := some o }
+
+/-- A variant that is NOT the code (seed C15f): `tls_config` derives the connector's server name from the
+overridden origin when there is one ("the origin plays the role of SNI") — in rustls the SNI name is also the
+name the certificate is verified against. -/
+def Endpoint.tlsConfigOriginName (sys : Sys Root) (ep : Endpoint Root Chain) (cfg : ClientTlsConfig Root Chain) :
+    Except CfgErr (Endpoint Root Chain) :=
+  let uri := match ep.origin with
+    | some o => if o.host.isSome then o else ep.uri
+    | none => ep.uri
+  match cfg.intoTlsConnector sys uri with
   | .ok t => .ok { ep with tls := some t }
   | .error e => .error e
 
